@@ -44,7 +44,8 @@ def prepare(kind, sess, state, supplied_pipe):
     # falsy-but-meaningful constructor options must survive a restart too (userid 0 is what Pool gives its first worker)
     kw = dict(args=[0, 'T'], name=f'w-{kind}', userid=expected_userid(state), set_names=False)
     if supplied_pipe:
-        kw['results_pipe'] = Pipe()
+        from pyworkers.utils import LocalPipe
+        kw['results_pipe'] = LocalPipe() if kind == 'thread' else Pipe()
     target = t_neg_raises
     if state == 'uncooperative':
         target = t_swallow
@@ -112,6 +113,52 @@ def check_fresh(ctx, kind, state, w, old_id, step, supplied, desc):
     return True
 
 
+def run_combo(ctx, sess, kind, state, supplied, nrestarts):
+    desc = {'kind': kind, 'state': state, 'supplied_pipe': supplied, 'restarts': nrestarts}
+    w = prepare(kind, sess, state, supplied)
+    ok = True
+    outcome = []
+    for step in range(1, nrestarts + 1):
+        old_id = w.id if kind != 'thread' else None
+        from pyworkers.utils import Pipe
+        kw = {'results_pipe': Pipe()} if supplied is True else {}
+        st, e = watchdog(lambda: w.restart(timeout=1.0, **kw), 40)
+        if st == 'exc':
+            outcome.append('raised:' + type(e).__name__)
+            if state == 'uncooperative' and kind == 'thread' and isinstance(e, RuntimeError):
+                # must not have abandoned the running child: the same thread is still alive
+                if not w._child.is_alive():
+                    ctx.fail('stuck-but-gone:thread', 'restart raised although the old thread is gone', desc)
+            else:
+                ctx.fail(f'restart-raised:{kind}:{state}:{type(e).__name__}', f'{kind} worker in state {state}: restart() raised {type(e).__name__}: {e}', desc)
+            ok = False
+            break
+        if st == 'hang':
+            outcome.append('hang')
+            ctx.fail(f'restart-hangs:{kind}:{state}', f'{kind} worker in state {state}: restart() did not return within 40 s', desc)
+            ok = False
+            break
+        outcome.append('ok')
+        if state == 'uncooperative' and kind == 'thread':
+            ctx.fail('stuck-restart-succeeded:thread', 'restart() of a thread worker that cannot be stopped returned instead of raising', desc)
+        if not check_fresh(ctx, kind, state, w, old_id, step, supplied, desc):
+            ok = False
+            break
+    ctx.case((kind, state, supplied, nrestarts), state != 'never-used', sample={**desc, 'outcome': outcome} if len(outcome) and (hash((kind, state)) % 3 == 0) else None)
+    ctx.count(f'{kind}:{state}')
+    if ok:
+        st, r = watchdog(lambda: w.wait(5), 15)
+        if st == 'ok' and r and state not in ('killed-mid-final-message', 'uncooperative') and w.result != 1:
+            ctx.fail(f'counter-not-reset:{kind}:{state}', f'{kind} ({state}): result={w.result} after one enqueue in the last incarnation', desc)
+    try:
+        if state == 'uncooperative' and kind == 'thread':
+            pass      # the swallowing thread cannot be stopped; it is a daemon-less thread: kill it via its loop? (left running until exit)
+        elif w.is_alive():
+            w.terminate(0.5, **({'force': True} if kind != 'thread' else {}))
+    except BaseException:  # noqa
+        pass
+
+
 def main(ctx: Ctx):
     ctx.assumptions += [
         '"new identity" = a different (host, pid, tid) for process/remote kinds: pid freshness is an OS fact',
@@ -135,54 +182,14 @@ def main(ctx: Ctx):
                     continue
                 if state == 'killed-mid-final-message' and kind != 'process':
                     continue
-                for supplied in ((False, True) if (T or state in ('results-unread', 'inputs-queued')) else (rng.random() < 0.3,)):
-                    if kind == 'thread' and supplied:
+                # supplied: False = no results pipe given; True = given to the constructor and to every restart();
+                # 'ctor-only' = given to the constructor only, restart() called plainly (it must then create a fresh one)
+                for supplied in ((False, True, 'ctor-only') if (T or state in ('results-unread', 'inputs-queued')) else (rng.random() < 0.3,)):
+                    if kind == 'thread' and supplied is True:
                         continue
                     combos.append((kind, state, supplied, rng.randint(1, 3) if T else (2 if state in ('results-unread',) else 1)))
         for kind, state, supplied, nrestarts in combos:
-            desc = {'kind': kind, 'state': state, 'supplied_pipe': supplied, 'restarts': nrestarts}
-            w = prepare(kind, sess, state, supplied)
-            ok = True
-            outcome = []
-            for step in range(1, nrestarts + 1):
-                old_id = w.id if kind != 'thread' else None
-                from pyworkers.utils import Pipe
-                kw = {'results_pipe': Pipe()} if supplied else {}
-                st, e = watchdog(lambda: w.restart(timeout=1.0, **kw), 40)
-                if st == 'exc':
-                    outcome.append('raised:' + type(e).__name__)
-                    if state == 'uncooperative' and kind == 'thread' and isinstance(e, RuntimeError):
-                        # must not have abandoned the running child: the same thread is still alive
-                        if not w._child.is_alive():
-                            ctx.fail('stuck-but-gone:thread', 'restart raised although the old thread is gone', desc)
-                    else:
-                        ctx.fail(f'restart-raised:{kind}:{state}:{type(e).__name__}', f'{kind} worker in state {state}: restart() raised {type(e).__name__}: {e}', desc)
-                    ok = False
-                    break
-                if st == 'hang':
-                    outcome.append('hang')
-                    ctx.fail(f'restart-hangs:{kind}:{state}', f'{kind} worker in state {state}: restart() did not return within 40 s', desc)
-                    ok = False
-                    break
-                outcome.append('ok')
-                if state == 'uncooperative' and kind == 'thread':
-                    ctx.fail('stuck-restart-succeeded:thread', 'restart() of a thread worker that cannot be stopped returned instead of raising', desc)
-                if not check_fresh(ctx, kind, state, w, old_id, step, supplied, desc):
-                    ok = False
-                    break
-            ctx.case((kind, state, supplied, nrestarts), state != 'never-used', sample={**desc, 'outcome': outcome} if len(outcome) and (hash((kind, state)) % 3 == 0) else None)
-            ctx.count(f'{kind}:{state}')
-            if ok:
-                st, r = watchdog(lambda: w.wait(5), 15)
-                if st == 'ok' and r and state not in ('killed-mid-final-message', 'uncooperative') and w.result != 1:
-                    ctx.fail(f'counter-not-reset:{kind}:{state}', f'{kind} ({state}): result={w.result} after one enqueue in the last incarnation', desc)
-            try:
-                if state == 'uncooperative' and kind == 'thread':
-                    pass      # the swallowing thread cannot be stopped; it is a daemon-less thread: kill it via its loop? (left running until exit)
-                elif w.is_alive():
-                    w.terminate(0.5, **({'force': True} if kind != 'thread' else {}))
-            except BaseException:  # noqa
-                pass
+            run_combo(ctx, sess, kind, state, supplied, nrestarts)
         # ---- remote kind: the old incarnation's frontend thread is still receiving results when restart() is called
         for supplied in (False, True):
             from pyworkers.utils import Pipe
@@ -219,4 +226,16 @@ def main(ctx: Ctx):
 
 
 def replay(case):
+    if 'state' in case and case.get('state') != 'frontend-still-receiving':
+        class C:
+            def case(self, *a, **k): print('observed', k.get('sample'))
+            def count(self, *a, **k): pass
+            def fail(self, sig, what, desc): print('FAIL', sig, what)
+        sess = inject.Session()
+        try:
+            run_combo(C(), sess, case['kind'], case['state'], case.get('supplied_pipe', False), case.get('restarts', 1))
+            print('done')
+        finally:
+            sess.close()
+        return
     print(case)
